@@ -687,6 +687,14 @@ def rule_stale_list_test(ctx):
         ctx.ok(site(run, 0), "no branch of run depends on a test of the match list")
 
 
+def rule_cancel_lock(ctx):
+    """A snapshot is internally consistent only if a cancelled run's half-processed match list is never published: the
+    tick that cancels must get hold of the worker and start over; a cancelling phase that can time out forgets the
+    cancellation and a later ordinary run publishes the leftovers (shared with C12 / C19)."""
+    from props.c12 import rule_cancel_lock as r
+    r(ctx)
+
+
 def rules(ctx):
     ctx.run_rule("C06.clone-complete", rule_clone_complete)
     ctx.run_rule("C06.snapshot-fields", rule_snapshot_fields)
@@ -695,5 +703,6 @@ def rules(ctx):
     ctx.run_rule("C06.placeholders", rule_placeholders)
     ctx.run_rule("C06.stale-list-test", rule_stale_list_test)
     ctx.run_rule("C06.update-guard", rule_update_guard)
+    ctx.run_rule("C06.cancel-lock", rule_cancel_lock)
     ctx.run_rule("C06.score-source", rule_score_source)
     ctx.run_rule("C06.borrow-witness", rule_borrow_witness)
